@@ -244,7 +244,7 @@ func (r *ruleState) onMessage(m *MsgRec) {
 		}
 		r.observe("notify message", body.Promise, r.s.Ev)
 		if t := r.s.Last.Tasks[m.TaskId]; t != nil && body.Promise.Id != t.RootPromiseId {
-			r.s.violate("C19.notify_wrong_promise", P("C19", "C08"), "notify", "notification carries another promise than the one subscribed to", fmt.Sprintf("task %s (promise %q): %s", m.TaskId, t.RootPromiseId, m.Body))
+			r.s.violate("C19.notify_wrong_promise", P("C19", "C08", "C01"), "notify", "notification carries another promise than the one subscribed to", fmt.Sprintf("task %s (promise %q): %s", m.TaskId, t.RootPromiseId, m.Body))
 		}
 		if body.Promise.State == promise.Pending {
 			r.s.violate("C19.notify_pending", P("C19", "C08", "C01"), "notify", "pending promise in notification", m.Body)
@@ -399,33 +399,44 @@ func tagOf(p *tables.Promise, key string) (string, bool) {
 // Statement C19: a plain string is kept as a logical name, a JSON receiver
 // object (type + data) as a physical receiver, anything else does not route.
 func (s *Sim) routeOf(p *tables.Promise) (logical *string, physType string, physData string, routes bool) {
-	key := "resonate:invoke"
+	// configured tag sources in their order, then the built-in resonate:invoke source unless a
+	// configured source is named default; the first source that yields a receiver wins
+	var keys []string
+	hasDefault := false
 	for _, src := range s.Cfg.Sources {
+		if src.Name == "default" {
+			hasDefault = true
+		}
 		if src.Type == "tag" {
 			var c struct{ Key string }
-			if json.Unmarshal(src.Data, &c) == nil && c.Key != "" {
-				key = c.Key
+			if json.Unmarshal(src.Data, &c) == nil {
+				keys = append(keys, c.Key)
 			}
-			break
 		}
 	}
-	v, ok := tagOf(p, key)
-	if !ok {
-		return nil, "", "", false
+	if !hasDefault {
+		keys = append(keys, "resonate:invoke")
 	}
-	if !json.Valid([]byte(v)) {
-		return &v, "", "", true
+	for _, key := range keys {
+		v, ok := tagOf(p, key)
+		if !ok {
+			continue
+		}
+		if !json.Valid([]byte(v)) {
+			return &v, "", "", true
+		}
+		dec := json.NewDecoder(bytes.NewReader([]byte(v)))
+		dec.DisallowUnknownFields()
+		var obj *struct {
+			Type string          `json:"type"`
+			Data json.RawMessage `json:"data"`
+		}
+		if err := dec.Decode(&obj); err != nil || obj == nil || obj.Type == "" {
+			continue
+		}
+		return nil, obj.Type, compactJSON(obj.Data), true
 	}
-	dec := json.NewDecoder(bytes.NewReader([]byte(v)))
-	dec.DisallowUnknownFields()
-	var obj *struct {
-		Type string          `json:"type"`
-		Data json.RawMessage `json:"data"`
-	}
-	if err := dec.Decode(&obj); err != nil || obj == nil || obj.Type == "" {
-		return nil, "", "", false
-	}
-	return nil, obj.Type, compactJSON(obj.Data), true
+	return nil, "", "", false
 }
 
 func compactJSON(b []byte) string {
